@@ -1444,6 +1444,58 @@ fn run_c13(out: &mut Out, rng: &mut Rng, work: &str) -> BTreeMap<String, u64> {
 		}
 	}
 	let _ = nrd_last_pair;
+	// ---- the same NRD excess FOUR times on one chain (relative height 2, two blocks apart), then a
+	// fork that rewinds the last two instances and repeats the excess one block after the newest
+	// instance that is still on its path (must be refused), and the duplicate on the main chain
+	{
+		let tip = *g.valid.iter().max_by_key(|i| (g.kit.blks[**i].work, **i)).unwrap();
+		let h0 = g.kit.blks[tip].height;
+		let src = pick_plain(&g, tip, h0 + 1);
+		if let Some(src) = src {
+			let v = g.kit.outs[src].value;
+			let part = (v - 2) / 8;
+			let mut outs: Vec<(u64, Option<usize>)> = (0..7).map(|_| (part, None)).collect();
+			outs.push((v - 2 - 7 * part, None));
+			let before = g.kit.outs.len();
+			if let Some(fan) = g.add_scripted(tip, 1, &[TxSpec { inputs: vec![src], outputs: outs, kernel: KSpec::Plain(2) }], "nrd4:fan") {
+				let fanned: Vec<usize> = (before..g.kit.outs.len()).filter(|o| !g.kit.outs[*o].coinbase).collect();
+				if g.kit.blks[fan].valid && fanned.len() >= 7 {
+					let mut cur = fan;
+					let mut chain_ids = vec![];
+					let mut ok = true;
+					for k in 0..8 {
+						// instances at fan+1, +3, +5, +7; empty blocks in between
+						let specs = if k % 2 == 0 { vec![spend(fanned[k / 2], &g, KSpec::Nrd(3, 2, 6))] } else { vec![] };
+						match g.add_scripted(cur, 1, &specs, if k % 2 == 0 { "nrd4:instance" } else { "nrd4:spacer" }) {
+							Some(id) if g.kit.blks[id].valid => {
+								cur = id;
+								chain_ids.push(id);
+							}
+							_ => {
+								ok = false;
+								break;
+							}
+						}
+					}
+					if ok {
+						// main chain: the excess again one block after the fourth instance: distance 2 from
+						// instance 4 (at +7, this block at +9): allowed; at +8 (spacer height) it would be 1
+						// fork: on top of the SECOND instance (chain_ids[2], height fan+3): height fan+4,
+						// distance 1 from the newest instance on its own path -> refused
+						g.add_scripted(chain_ids[2], 1, &[spend(fanned[4], &g, KSpec::Nrd(3, 2, 6))], "nrd4:fork-after-rewinding-two-instances:distance-1-of-2");
+						// control fork: one spacer first, then the excess at distance 2 -> accepted
+						if let Some(sp) = g.add_scripted(chain_ids[2], 1, &[], "nrd4:fork-spacer") {
+							if g.kit.blks[sp].valid {
+								g.add_scripted(sp, 1, &[spend(fanned[5], &g, KSpec::Nrd(3, 2, 6))], "nrd4:fork-after-rewinding-two-instances:distance-2-of-2");
+							}
+						}
+						// and on the main chain right after the fourth instance (distance 1): refused
+						g.add_scripted(chain_ids[6], 1, &[spend(fanned[6], &g, KSpec::Nrd(3, 2, 6))], "nrd4:main:distance-1-of-2");
+					}
+				}
+			}
+		}
+	}
 	// ---- a short but heavy fork off height 1, announced header-first while the body chain grows:
 	// the header head sits on another fork than every block delivered afterwards
 	let heavy_short = match g.add_scripted(trunk[1], 500, &[], "fork:heavy-short") {
